@@ -229,7 +229,7 @@ pub fn families(quick: bool) -> Families {
         }
     }
     let small: Vec<&(String, String, String)> = pairs.iter().filter(|p| ["X-A", "x-a", "Host"].contains(&p.0.as_str()) && ["v", "", "é", "two words"].contains(&p.2.as_str())).collect();
-    let l3 = if quick { 3 } else { 4 };
+    let l3 = if quick { 3 } else { 5 };
     let mut idx = vec![0usize; l3];
     'outer: loop {
         let mut r = Req::new("PUT", "/h3");
